@@ -439,6 +439,7 @@ func parseGen(a args) {
 	written, events, skipped, tried := 0, 0, 0, 0
 	kinds := map[string]int{}
 	tmpl := a.str("tmpl", "")
+	emitTreeSets = a.num("trees", 0) == 1
 	for written < n && tried < n*200 {
 		tried++
 		var G []gnode
